@@ -7,6 +7,7 @@ number of running requests and is zero once all have finished; no request return
 request a response resolves is compared with the model (oldest pending waiter of that command).
 """
 import hostdrive
+import priv
 from props.c11 import run_generic, replay  # noqa: F401
 
 ASSUMPTIONS = ["events arrive at quiescent points of the event loop; timer ties avoided by construction"]
@@ -91,7 +92,7 @@ def unstarted(ctx):
                 # follow-up request for the same command, acknowledged and answered
                 w.start(2, mk(2), 3.0)
                 for _ in range(6):
-                    w.rx(streams.ack(getattr(w.p, "_pack_seq", 0)))
+                    w.rx(streams.ack(priv.pack_seq(w.p)))
                 w.rx(hostworld.rsp_bytes(Rsp, 2, 1, **kw))
                 res = [e for e in w.log if e.startswith("D2=")]
                 ctx.case(("unstarted", kind, how), sample=dict(kind=kind, how=how, listeners_left=n1 - n0, follow_up=res))
